@@ -104,21 +104,21 @@ SPEC = {
              "slower than the schedule do, without any real waiting: with discard_overflow (4 of 5 such cases) the tokens that are 2 s "
              "overdue are discarded - the acquired ammo goes back to the provider unused while other instances shoot - otherwise they "
              "are shot at once. The number of discarded shots is measured (ammo acquired minus shots the gun probes counted; on a "
-             "stalled machine instances fall 2 s behind any schedule) and all counts are judged against it. Plain http ammo with bodies (uripost, raw, http/json; raw is drawn twice as often as the others) carry in "
-             "half of the cases (raw: 3 of 4) bodies of 5-30 KiB plus 101 bytes per entry index, filled with a letter of the entry's own "
-             "after a short head, raw and http/json entries in 4 cases of 10 also a header of 700-5000 such letters: requests that exceed "
+             "stalled machine instances fall 2 s behind any schedule) and all counts are judged against it. Plain http ammo with bodies (uripost, raw, http/json; raw is the format of about 4 plain http pools of 10) carry in "
+             "about 7 cases of 10 bodies of 5-30 KiB plus 101 bytes per entry index, filled with a letter of the entry's own "
+             "after a short head, raw and http/json entries in about half of the cases also a header of 700-5000 such letters: requests that exceed "
              "the 4 KiB the standard library's readers buffer, so that most of the body is read from the decoded ammo's memory only "
              "while the gun sends it - after the instance acquired it and while the provider goroutine decodes the following entries "
              "for the other instances; the target compares every byte of body and header with the entry the URI names. The phout "
-             "aggregator gets `sample-queue-size` 1, 2 or 16 in 3 cases of 10 (a full queue makes Report wait for the aggregator's "
-             "goroutine; the jsonlines reporter drops samples when its queue is full - by design, so its queue is left alone). In 6 cases "
-             "of 100 the run is a storm of discarded shots that lasts across the aggregators' 1 s flush period: the startup schedule "
+             "aggregator gets `sample-queue-size` 1, 2 or 16 in about 4 cases of 10 (a full queue makes Report wait for the aggregator's "
+             "goroutine; the jsonlines reporter drops samples when its queue is full - by design, so its queue is left alone). In 4-9 cases "
+             "of 100 (it varies with the seed; rapid's draws are not uniform) the run is a storm of discarded shots that lasts across the aggregators' 1 s flush period: the startup schedule "
              "begins with a pause of 850-940 ms, then the instances start and find 9-24 thousand tokens of the shared rps schedule "
              "(started 2.2-4 s in the past; one `once`, one `const` over 1-50 ms, or two bursts) overdue by more than 2 s; with "
              "discard_overflow they drop them one after the other - acquire, give back, report the `discarded` sample - as fast as the "
              "provider hands the ammo out, which takes beyond the 1 s mark (120 tokens per ms up to the mark and 2-6 thousand more; "
              "measured: the times of the first and the last discarded acquisition), then the ammo of the case itself are shot as in any "
-             "other case; 8 of 10 storms report to phout, 5 of 6 of those with `sample-queue-size` 1, 2 or 16. Scenarios are built from switches, one per shared "
+             "other case; more than 8 of 10 storms report to phout, three quarters of those with `sample-queue-size` 1, 2 or 16. Scenarios are built from switches, one per shared "
              "object: preprocessor row mapping source.users[next|rand|last] on a file/csv or file/json source, [next|rand|last] indexing "
              "of an array taken from an earlier response, randInt / randString / uuid as template functions and as preprocessor "
              "functions, a `variables` source with randomised values, header / metadata maps (none, constants, templates), var/jsonpath, "
